@@ -342,6 +342,16 @@ func (s *sim) normalise(r0 time.Time) {
 		}
 		writeGob(s.statePath(), &tas)
 	}
+	// the tombstones age with the virtual clock as well (nothing may depend on their age)
+	if ts, st := readTomb(s.tombPath()); st == "ok" {
+		for _, tb := range ts {
+			if tb != nil && !tb.FirstSeen.IsZero() {
+				f := s.virt(tb.FirstSeen)
+				tb.FirstSeen = r0.Add(-time.Duration(s.V-f)*time.Second + stampBias)
+			}
+		}
+		writeGob(s.tombPath(), &ts)
+	}
 	s.epochR = r0
 	s.epochV = s.V
 }
@@ -686,9 +696,27 @@ func exec(op string) vlib.Res {
 		S.r = nil
 		return vlib.Res{Impl: S.obs(), Oracle: "ok"}
 	case "boot":
-		// NewResolver alone: the process exists, its first AutoTA has not run yet
+		// NewResolver alone: the process exists, its first AutoTA has not run yet; with a fault
+		// argument the files cannot be opened while it starts (s: state file, t: tombstone store)
+		fl := ""
+		if len(f) > 2 {
+			fl = f[2]
+		}
+		stateSnap, tombSnap := snapFile(S.statePath()), snapFile(S.tombPath())
+		if strings.Contains(fl, "s") {
+			plantLoop(S.statePath())
+		}
+		if strings.Contains(fl, "t") {
+			plantLoop(S.tombPath())
+		}
 		S.newProcess()
-		return vlib.Res{Impl: S.obs(), Oracle: S.orc.boot(S)}
+		if isLoop(S.statePath()) {
+			stateSnap.restore(S.statePath())
+		}
+		if isLoop(S.tombPath()) {
+			tombSnap.restore(S.tombPath())
+		}
+		return vlib.Res{Impl: S.obs(), Oracle: S.orc.boot(S, strings.Contains(fl, "t")), Tags: "nt,boot"}
 	case "damage":
 		// tomb|state: garbage; *-trunc: the existing gob stream cut in the middle
 		// (garbage when there is none); *-empty: truncated to zero length
